@@ -137,6 +137,10 @@ impl GenModel {
         if self.obj.len() != n || !self.offset.is_finite() {
             return false;
         }
+        // a feasibility objective has no constant term in any front end
+        if self.sense == Sense::Satisfy && self.offset != 0.0 {
+            return false;
+        }
         let mut names = std::collections::BTreeSet::new();
         for v in &self.vars {
             if !names.insert(v.name.clone()) {
